@@ -223,8 +223,44 @@ func (e *Env) RunBin(bin string, worker int, s *scn.Scenario) *Run {
 	if v, ok := s.Rig["cpu_s"].(float64); ok && v > 0 { // rigs that batch much work per process state their own budget
 		budget = time.Duration(v) * time.Second
 	}
+	runDir := dir
+	if ff, _ := s.Rig["fs_fault"].(string); ff != "" {
+		// Disk faults for the library's log files. The free5gc packages open <root>/log/free5gc.log and
+		// <root>/log/lib/<package>.log when they are initialised, <root> being found from the location
+		// of the executable; the child gets a root of its own (through a symbolic link to the binary) in
+		// which the named files cannot be opened or created: a directory stands where the file should be.
+		root := filepath.Join(dir, "fsroot")
+		os.RemoveAll(root)
+		must(os.MkdirAll(filepath.Join(root, "bin"), 0755))
+		must(os.MkdirAll(filepath.Join(root, "run"), 0755))
+		link := filepath.Join(root, "bin", filepath.Base(bin))
+		must(os.Symlink(bin, link))
+		bin, runDir = link, filepath.Join(root, "run")
+		must(os.WriteFile(filepath.Join(runDir, "config.yaml"), []byte(yaml), 0644))
+		lib := filepath.Join(root, "log", "lib")
+		block := func(names ...string) {
+			for _, n := range names {
+				must(os.MkdirAll(filepath.Join(lib, n), 0755))
+			}
+		}
+		switch ff {
+		case "aper-log":
+			block("aper.log")
+		case "lib-logs":
+			block("aper.log", "ngap.log", "nas.log")
+		case "free5gc-log":
+			must(os.MkdirAll(filepath.Join(root, "log", "free5gc.log"), 0755))
+		case "all-logs":
+			block("aper.log", "ngap.log", "nas.log")
+			must(os.MkdirAll(filepath.Join(root, "log", "free5gc.log"), 0755))
+		case "log-dir": // "log" is a file: no directory can be made below it, every open fails
+			must(os.WriteFile(filepath.Join(root, "log"), nil, 0644))
+		default:
+			harnessFail("unknown fs_fault %q", ff)
+		}
+	}
 	cmd := exec.Command(bin, s.Args...)
-	cmd.Dir = dir
+	cmd.Dir = runDir
 	// GOMAXPROCS=1: with several Ps the faketime runtime can livelock under load (measured: 484 of
 	// 1500 identical runs spun until the watchdog with GOMAXPROCS=16, none with 1). The emulator is
 	// a single goroutine, so nothing is lost.
